@@ -54,13 +54,15 @@ def Scheme.needsParent : Scheme → Bool
   | .texCoords | .texCoordsDeprecated | .geometricNormal _ => true
   | _ => false
 
-/-- method / transform bytes of `SequentialIntegerAttributeDecoder::DecodeValues`, the prediction
-    scheme `CreateIntPredictionScheme` yields for a mesh, and `InitPredictionScheme` (parent attribute) -/
-def selectScheme (kind : Nat) (pointIds : Array Nat) (parent : Option Parent) :
-    DecM (Scheme × PosSource × PosSourceF) := do
-  let ver ← version
-  let pre20 := ver < bsVersion 2 0
-  let pre22 := ver < bsVersion 2 2
+/-- the schemes with an octahedron transform (their corrections are not zig-zag coded) -/
+def Scheme.isOcta : Scheme → Bool
+  | .deltaOcta _ | .geometricNormal _ => true
+  | _ => false
+
+/-- first part of `DecodeIntegerValues`: the prediction method byte, the transform byte and the prediction
+    scheme object `CreateIntPredictionScheme` builds from them (with the reason when the combination is outside the
+    model, "" otherwise) -/
+def readSchemeEb (kind : Nat) : DecM (Scheme × String) := do
   let rem0 ← remaining
   let method ← rdI8
   -- position of the method byte, counted from the end of the stream (for the generators of
@@ -86,8 +88,12 @@ def selectScheme (kind : Nat) (pointIds : Array Nat) (parent : Option Parent) :
       else if method == Generated.MESH_PREDICTION_TEX_COORDS_PORTABLE then scheme := .texCoords
       else if method == Generated.MESH_PREDICTION_GEOMETRIC_NORMAL then unsupp := "geometric normal prediction with the wrap transform"
       else scheme := .deltaWrap
-  if unsupp != "" then failWith (.unsupported unsupp) else
-  -- InitPredictionScheme: the schemes with a parent attribute
+  pure (scheme, unsupp)
+
+/-- `InitPredictionScheme` for the schemes with a parent attribute: the position sources -/
+def parentSourcesEb (scheme : Scheme) (pointIds : Array Nat) (parent : Option Parent) :
+    DecM (PosSource × PosSourceF × String) := do
+  let mut unsupp := ""
   let mut pos : PosSource := { pointIds := #[], map := #[], values := #[] }
   let mut posF : PosSourceF := { pointIds := #[], map := #[], values := #[] }
   if scheme.needsParent then
@@ -101,15 +107,10 @@ def selectScheme (kind : Nat) (pointIds : Array Nat) (parent : Option Parent) :
       else
         if !p.intsOk then unsupp := "integer prediction scheme with the non-portable parent attribute of a stream < 2.0"
         pos := { pointIds := pointIds, map := p.map, values := p.ints }
-  if unsupp != "" then failWith (.unsupported unsupp) else
-  pure (scheme, pos, posF)
+  pure (pos, posF, unsupp)
 
-/-- the symbol / raw part of `DecodeIntegerValues`: `numEntries * nc` unsigned values -/
-def readRawValues (pre20 : Bool) (numEntries nc : Nat) : DecM (List Nat) := do
-  require (nc > 0)
-  let numValues := numEntries * nc
-  alloc "integer_decoder.portable_attribute" (4 * numValues)
-  require (numEntries > 0)
+/-- the coded values of `DecodeIntegerValues`: `DecodeSymbols` or the raw bytes -/
+def readCodedValuesEb (pre20 : Bool) (numValues nc : Nat) : DecM (List Nat) := do
   let compressed ← rdU8
   if compressed > 0 then lift (decodeSymbolsV pre20 numValues nc)
   else do
@@ -125,10 +126,9 @@ def readRawValues (pre20 : Bool) (numEntries nc : Nat) : DecM (List Nat) := do
       let b ← bytes (numBytes * numValues)
       pure (leGroups numBytes b)
 
-/-- `DecodePredictionData` + `ComputeOriginalValues` of the selected scheme on the corrections `vals` -/
-def applyScheme (scheme : Scheme) (nc : Nat) (md : MeshData) (pos : PosSource) (posF : PosSourceF)
+/-- `DecodePredictionData` + `ComputeOriginalValues` of the scheme on the corrections `vals` -/
+def applySchemeEb (ver : Nat) (scheme : Scheme) (md : MeshData) (pos : PosSource) (posF : PosSourceF) (nc : Nat)
     (vals : Array Int) : DecM (Array Int) := do
-  let ver ← version
   let pre22 := ver < bsVersion 2 2
   let numCorners := 3 * md.t.numFaces
   match scheme with
@@ -223,22 +223,27 @@ def applyScheme (scheme : Scheme) (nc : Nat) (md : MeshData) (pos : PosSource) (
 /-- `SequentialIntegerAttributeDecoder::DecodeValues` + `DecodeIntegerValues` for an attribute of
     an Edgebreaker mesh, every bitstream version. `kind`: 1 integer, 2 quantization, 3 normals;
     `nc`: components of the portable values, `attComponents`: of the attribute. Returns the portable
-    values and, before 2.0, the transform parameters that precede them. -/
+    values and, before 2.0, the transform parameters that precede them.
+    (Composition of `readSchemeEb`, `parentSourcesEb`, `readCodedValuesEb`, `applySchemeEb`.) -/
 def decodeIntegerValuesEb (kind numEntries nc attComponents : Nat) (md : MeshData) (pointIds : Array Nat)
     (parent : Option Parent) : DecM (Array Int × TransformData) := do
   let ver ← version
   let pre20 := ver < bsVersion 2 0
-  let (scheme, pos, posF) ← selectScheme kind pointIds parent
+  let (scheme, unsupp) ← readSchemeEb kind
+  if unsupp != "" then failWith (.unsupported unsupp) else
+  -- InitPredictionScheme: the schemes with a parent attribute
+  let (pos, posF, unsupp) ← parentSourcesEb scheme pointIds parent
+  if unsupp != "" then failWith (.unsupported unsupp) else
   -- DecodeIntegerValues; before 2.0 the quantization / octahedral parameters come first
   let tr ← if pre20 then decodeTransformParams kind attComponents else pure TransformData.none
-  let raw ← readRawValues pre20 numEntries nc
-  -- ConvertSymbolsToSignedInts unless the corrections of the scheme are positive (octahedron transforms)
-  let octa := match scheme with
-    | .deltaOcta _ | .geometricNormal _ => true
-    | _ => false
+  require (nc > 0)
+  let numValues := numEntries * nc
+  alloc "integer_decoder.portable_attribute" (4 * numValues)
+  require (numEntries > 0)
+  let raw ← readCodedValuesEb pre20 numValues nc
   let vals : Array Int :=
-    if octa then (raw.map (toSigned 32)).toArray else (raw.map ofSymbol).toArray
-  let out ← applyScheme scheme nc md pos posF vals
+    if scheme.isOcta then (raw.map (toSigned 32)).toArray else (raw.map ofSymbol).toArray
+  let out ← applySchemeEb ver scheme md pos posF nc vals
   pure (out, tr)
 
 /-- one iteration of the corner loop of `UpdatePointToAttributeIndexMapping` -/
@@ -320,6 +325,25 @@ def parentOf (ver : Nat) (skip : List Nat) (ps : EbAttState) : Option Parent :=
       let fl := if ps.decoded then finalFloats ps else none
       some { numComponents := ps.desc.numComponents, map := ps.map, ints := #[], intsOk := false,
              floats := fl.getD #[], floatsOk := fl.isSome }
+
+/-- the corner table an attribute decoder traverses and predicts on: the base table or, for a per-corner
+    decoder, the attribute corner table of its attribute data -/
+def viewOfDecoder (mesh : Mesh) (dec : AttDecoder) : TView :=
+  if dec.cornerDecoder then
+    let a := mesh.atts[dec.attDataId.toNat]!
+    { c2v := a.c2v, opp := mesh.opp, seam := a.edgeSeam, lm := a.lm, isAtt := true, numFaces := mesh.numFaces }
+  else { c2v := mesh.c2v, opp := mesh.opp, seam := #[], lm := mesh.vc, isAtt := false, numFaces := mesh.numFaces }
+
+/-- `GenerateSequence` of an attribute decoder -/
+def sequenceOfDecoder (mesh : Mesh) (dec : AttDecoder) : R SeqOut :=
+  let view := viewOfDecoder mesh dec
+  let v2dSize :=
+    if dec.attDataId < 0 then mesh.vc.size
+    else max (mesh.atts[dec.attDataId.toNat]!).lm.size mesh.vc.size
+  -- (a per-corner decoder always traverses depth first: `CreateAttributesDecoder` rejects any other method for it)
+  if !dec.cornerDecoder && dec.traversalMethod == Generated.MESH_TRAVERSAL_PREDICTION_DEGREE.toNat
+  then maxPredictionDegree view mesh.faces v2dSize
+  else depthFirst view mesh.faces v2dSize
 
 /-- `CreateAttributesDecoder(i)` for `i = 0 … numDecoders - 1` -/
 def createAttributeDecoders (ver numAtt numDecoders : Nat) : DecM (Array AttDecoder) := do
@@ -419,20 +443,9 @@ def transformCheck (opts : DecOpts) (ver : Nat) (s : EbAttState) : DecM EbAttSta
 def decodeOneDecoder (opts : DecOpts) (ver : Nat) (mesh : Mesh) (posAtt : Option Nat) (all : Array EbAttState)
     (i : Nat) (dec : AttDecoder) (mine : List EbAttState) (done : List EbAttState) : DecM (List EbAttState) := do
   -- GenerateSequence
-  let baseView : TView := { c2v := mesh.c2v, opp := mesh.opp, seam := #[], lm := mesh.vc, isAtt := false,
-                            numFaces := mesh.numFaces }
-  let view : TView :=
-    if dec.cornerDecoder then
-      let a := mesh.atts[dec.attDataId.toNat]!
-      { c2v := a.c2v, opp := mesh.opp, seam := a.edgeSeam, lm := a.lm, isAtt := true, numFaces := mesh.numFaces }
-    else baseView
-  let v2dSize :=
-    if dec.attDataId < 0 then mesh.vc.size
-    else max (mesh.atts[dec.attDataId.toNat]!).lm.size mesh.vc.size
+  let view : TView := viewOfDecoder mesh dec
   alloc "mesh_traversal_sequencer.point_ids" (4 * view.numVertices)
-  let seq ← liftR (if dec.traversalMethod == Generated.MESH_TRAVERSAL_PREDICTION_DEGREE.toNat
-                   then maxPredictionDegree view mesh.faces v2dSize
-                   else depthFirst view mesh.faces v2dSize)
+  let seq ← liftR (sequenceOfDecoder mesh dec)
   tag (if dec.cornerDecoder then "traversal:depth_first:attribute_table"
        else if dec.traversalMethod == Generated.MESH_TRAVERSAL_PREDICTION_DEGREE.toNat then "traversal:max_prediction_degree"
        else "traversal:depth_first")
@@ -457,11 +470,11 @@ def decodeDecoders (opts : DecOpts) (ver : Nat) (mesh : Mesh) (posAtt : Option N
     decodeDecoders opts ver mesh posAtt all rest done'
 
 /-- `PointCloudDecoder::DecodePointAttributes` of `MeshEdgebreakerDecoder` -/
-def decodeAttributes (opts : DecOpts) (mesh : Mesh) : DecM (List Attribute) := do
-  let ver ← version
+def decodeAttributes (opts : DecOpts) (ver : Nat) (mesh : Mesh) : DecM (List Attribute) := do
   -- offset tag for the structure-aware corruption campaigns (tools/props/robustgen.py): the decoder count byte is
   -- followed by (att_data_id, decoder type, traversal method) per decoder, then the descriptors of every decoder
-  tag s!"at:att_decoders:{← remaining}"
+  let rem0 ← remaining
+  tag s!"at:att_decoders:{rem0}"
   let numDecoders ← rdU8
   let decoders ← createAttributeDecoders ver mesh.atts.size numDecoders
   alloc "decoder.attributes_decoders" (8 * numDecoders)
@@ -485,9 +498,11 @@ def facesOf (mesh : Mesh) : List (Nat × Nat × Nat) :=
 /-- body of an Edgebreaker mesh stream after the header and the metadata:
     `InitializeDecoder`, `DecodeGeometryData` (connectivity), `DecodePointAttributes` -/
 def decodeEdgebreaker (opts : DecOpts) : DecM Geometry := do
+  -- `bitstream_version()` of the decoder: set once from the header, the same for the whole body
+  let ver ← version
   let mesh ← decodeConnectivity
   for t in tagsOf mesh.tags do tag t
-  let atts ← decodeAttributes opts mesh
+  let atts ← decodeAttributes opts ver mesh
   pure { isMesh := true, numPoints := mesh.numPoints, faces := facesOf mesh, atts := atts }
 
 end Draco.Eb
